@@ -90,6 +90,12 @@ KINDS = {
     "gen_impl": K(name="gen_impl", sig="impl std::fmt::Debug + Clone + Send + Sync + 'static",
                   decl="let p{i}: u16 = {v};", arg="p{i}", canon_m="m{i}", canon_a="&a{i}", canon_c="&p{i}",
                   base="u16", generic="impl", elem_ty="u16"),
+    # an `impl Trait` parameter whose bounds include `Future` (the macro treats future bounds specially in return
+    # position; in argument position it is one more synthetic generic, numbered like the others)
+    "gen_impl_fut": K(name="gen_impl_fut",
+                      sig="impl std::future::Future<Output = ()> + std::fmt::Debug + Clone + Send + Sync + 'static",
+                      decl="let p{i}: FutU16 = FutU16({v});", arg="p{i}.clone()", canon_m="&m{i}.0",
+                      canon_a="&a{i}.0", canon_c="&p{i}.0", base="u16", generic="impl", elem_ty="FutU16"),
     # the trait-level generic is instantiated at another type (i16) than the method-level ones (u16): the two groups
     # of type arguments must not get mixed up
     "gen_trait": K(name="gen_trait", sig="G", decl="let p{i}: i16 = {v};", arg="p{i}", canon_m="m{i}",
@@ -260,6 +266,16 @@ pub fn ev(shape: u32, kind: &str, probes: &[String], addrs: &[usize]) {
 }
 
 pub struct NoDbg(pub u32);
+/// a future that is also a plain value (Debug prints the number, like the u16 it wraps)
+#[derive(Clone, PartialEq)]
+pub struct FutU16(pub u16);
+impl std::fmt::Debug for FutU16 {
+    fn fmt(&self, f: &mut std::fmt::Formatter<'_>) -> std::fmt::Result { std::fmt::Debug::fmt(&self.0, f) }
+}
+impl std::future::Future for FutU16 {
+    type Output = ();
+    fn poll(self: std::pin::Pin<&mut Self>, _: &mut std::task::Context<'_>) -> std::task::Poll<()> { std::task::Poll::Ready(()) }
+}
 pub struct Wr<'a>(pub &'a mut u32);
 
 /// a zero-sized value type (marker / unit struct)
@@ -421,7 +437,12 @@ def render_trait(s: Shape, idx: int, trait_name="Tr", method="m", unmock_attr=""
             sig = "&'t str"
         if k.name == "ref_u32":
             sig = sig.replace("{L}", "'a " if s.ret == "param_ref" and i == s.params.index("ref_u32") else "")
-        params.append(f"p{i}: {sig}")
+        pname = f"p{i}"
+        if s.extra.get("param_names") and default_body is None and not extra_methods:
+            # the names written in the trait: they end up as identifiers inside the generated impl, next to the
+            # macro's own locals
+            pname = s.extra["param_names"][i]
+        params.append(f"{pname}: {sig}")
     plist = ", ".join([receiver_sig(s)] + params)
     rsig = ret_sig(s)
     api = "api=M" if s.api == "module" else "api=[MFn" + (", " + s.extra["flat_extra"] if s.extra.get("flat_extra") else "") + "]"
@@ -462,9 +483,12 @@ def mockfn_expr(s: Shape):
     # order of with_types params: trait generics first, then method generics / impl traits in declaration order
     if s.extra.get("type_tag"):
         gen_args.append("u8")
-    for k in kinds:
-        if k.generic in ("method", "impl"):
-            gen_args.append("u16")
+    # (declared method generics come first, the synthetic generics of impl Trait parameters after them; the two
+    # groups are instantiated at different types when a Future-bounded impl Trait is present, so a mix-up shows)
+    for g in ("method", "impl"):
+        for k in kinds:
+            if k.generic == g:
+                gen_args.append(k.elem_ty)
     if gen_args:
         return f"{base}.with_types::<{', '.join(gen_args)}>()"
     return base
@@ -922,6 +946,25 @@ def core_shapes_forward():
         for params in (["ref_str"], ["u32", "ref_str", "mut_u32"], ["ref_str", "ref_str"]):
             for ret in ("u32", "string"):
                 shapes.append(Shape(r, list(params), ret, extra={"trait_lt": True}))
+    # several impl Trait parameters, one of them (at every position) with a Future bound
+    for r in ["ref", "mut", "owned"]:
+        for params in (["gen_impl_fut"], ["gen_impl_fut", "gen_impl"], ["gen_impl", "gen_impl_fut"],
+                       ["gen_impl_fut", "u32", "gen_impl", "gen_method"], ["gen_impl", "gen_impl_fut", "gen_impl"],
+                       ["gen_impl_fut", "gen_impl_fut"]):
+            # ("always": kept by every sampling of the core set, see engine_b.select_shapes)
+            always = r in ("ref", "mut") and len(params) > 1 and params[0] != params[-1] or params[1:2] == ["gen_impl_fut"]
+            shapes.append(Shape(r, list(params), "u32", extra={"always": True} if always else {}))
+    # parameters named like the generated impl's own locals, on every receiver
+    for r in RECEIVERS:
+        for names in (["cont", "output"], ["eval", "inputs"], ["unimock", "answer_fn"], ["a0", "m0"]):
+            extra = {"param_names": list(names)}
+            if names[0] == "cont" and r in ("ref", "mut", "pin"):
+                extra["always"] = True
+            shapes.append(Shape(r, ["u32", "ref_str"], "u32", extra=extra))
+        extra = {"param_names": ["output", "cont", "this"]}
+        if r == "mut":
+            extra["always"] = True
+        shapes.append(Shape(r, ["mut_u32", "u32", "string"], "string", extra=extra))
     # named self lifetime
     for params in (["u32"], ["ref_str", "mut_u32"], []):
         for ret in ("self_ref", "u32", "self_str"):
@@ -935,6 +978,11 @@ def core_shapes_forward():
             seen.add(s.key())
             out.append(s)
     return out
+
+
+# parameter names that coincide with identifiers the generated impl uses itself
+HOSTILE_PARAM_NAMES = ["cont", "output", "eval", "inputs", "unimock", "args", "a0", "m0", "mismatch", "reporter",
+                       "value", "result", "answer_fn", "this", "polonius"]
 
 
 def random_shape(rng: random.Random):
@@ -954,5 +1002,8 @@ def random_shape(rng: random.Random):
         elif s.asyncness == "sync" and "ref_str" in s.params and rng.random() < 0.3:
             s.extra = {"trait_lt": True}
         if supported(s) is None:
+            if arity and rng.random() < 0.2:
+                s.extra = dict(s.extra or {})
+                s.extra["param_names"] = rng.sample(HOSTILE_PARAM_NAMES, arity)
             return s
     raise RuntimeError("no supported shape found")
